@@ -95,8 +95,9 @@ func durOpt(opts map[string]string, k string, def time.Duration) time.Duration {
 
 func newBackendSuite(opts map[string]string) *backendSuite {
 	s := &backendSuite{c: newCtl(), opts: opts, watchers: map[string]*watcher{}, hooks: map[string]*hookGate{}}
-	s.inner = newEngine(opts)
-	s.kv = &kvWrap{inner: s.inner, c: s.c}
+	below := strings.HasPrefix(opts["engine"], "metrics-")
+	s.inner = newEngineUnder(opts, func(kv storage.KvStorage) storage.KvStorage { return &delFaultStore{KvStorage: kv, c: s.c} })
+	s.kv = &kvWrap{inner: s.inner, c: s.c, delBelow: below}
 	s.coder = coder.NewNormalCoder()
 	s.wait = durOpt(opts, "wait", 3000*time.Millisecond)
 	if v := os.Getenv("KB_WAIT_MS"); v != "" {
@@ -375,6 +376,13 @@ func (s *backendSuite) do(t []string) string {
 	case "setrev":
 		s.b.SetCurrentRevision(atou(pos[1]))
 		return "setrev ok"
+	case "getfault":
+		// getfault: the next point Get the engine sees fails once with a transient error (for a range read, count
+		// or stream that is the read of the compaction record)
+		s.c.mu.Lock()
+		s.c.getFault = true
+		s.c.mu.Unlock()
+		return "getfault ok"
 	case "iterfault":
 		// iterfault <n>: the next iterator the engine hands out fails its n-th Next call once with a transient
 		// (non-EOF) error; the scanner's worker retries its partition after a backoff
